@@ -67,6 +67,10 @@ CHECKS = {
    technique="deterministic simulation: real Active Authentication against the reference signer and an adversarial chip answer, reference verifier as oracle",
    text="Real activeauth.DoActiveAuth inside an installed session against the reference signer (own ISO 9796-2 and ECDSA): RSA 1024-4096 x five trailers x M1 policies, ECDSA on 11 curves plain and DER, supplied challenges: genuine accepted, challenge transmitted and recorded. "
         "Adversarial answers (bit flips, other challenge, other key, range violations, malleable n-s, digest over M1 only, wrong trailers, trailing bytes, random) are accepted only if the reference verifier confirms a valid signature over exactly the challenge sent; offline nonce binding is checked in the store engine."),
+ "C20": dict(engine="sched", cat="exploration", ref="DESIGN.md 6.20",
+   technique="deterministic simulation of caller threads: seeded cooperative scheduler choosing who runs at every yield point, in a race-detector build, with porcupine linearizability against sequential re-execution",
+   text="2-4 real goroutines with scripts of public API calls run under the seeded scheduler (one released at a time; yield points inside gmrtd's critical sections: Transceive, status callback, slog, crypto/rand.Reader, CertPool; hand-offs hidden from the race detector so only gmrtd's locks order the workers). Scenarios: shared reader.Reader, shared verifier.Verifier, independent instances sharing each CertPool type, mobile bindings with concurrent first use of the built-in trust store in a fresh process. "
+        "Oracles: zero race reports; the recorded history is linearizable w.r.t. the real code executed alone on a fresh world with the same per-operation randomness; independent instances equal their lone execution; master lists loaded once; no deadlock."),
 }
 
 NOT_APPLICABLE = {
@@ -127,6 +131,7 @@ def main():
             {"name": "proto-bac", "path": "sim/engines/protoduel.go", "serves_properties": ["C05"], "kind_free_text": "real BAC vs reference chip, hostile cryptograms"},
             {"name": "proto-ca", "path": "sim/engines/protoduel.go", "serves_properties": ["C06"], "kind_free_text": "real CA vs key-holding chip and impostors"},
             {"name": "proto-aa", "path": "sim/engines/protoduel.go", "serves_properties": ["C07"], "kind_free_text": "real AA vs reference signer and adversarial answers"},
+            {"name": "sched", "path": "sim/engines/schedeng.go + sim/sched", "serves_properties": ["C20"], "kind_free_text": "seeded cooperative scheduler over caller goroutines, race-detector build, porcupine"},
             {"name": "readfile", "path": "sim/engines/readfile.go", "serves_properties": ["C13"], "kind_free_text": "deterministic simulation: real ReadFile vs reference chip with response-splitting behaviours"},
         ],
         "checks": checks,
